@@ -200,6 +200,9 @@ def run_hypothesis(prop, strategy, max_examples, seed, rec, shrink=True, statefu
         except Violation as v:
             if v.case is None:
                 v.case = case
+            # drop the exception chain: Hypothesis keys failures by it and temp paths in it look "flaky"
+            v.__cause__ = None
+            v.__context__ = None
             last['v'] = v
             if state['t_first'] is None:
                 state['t_first'] = time.time()
